@@ -353,7 +353,27 @@ fn c09(s: &mut Search, rng: &mut Rng) {
     }
     while s.time_left() && n < 100_000 {
         n += 1;
-        if n % 3 == 0 {
+        if n % 5 == 4 {
+            // replicas whose particles share sigma and cutoff but not the well depth: what one replica
+            // computed must not leak into another through any per-thread or global state
+            let k = 2 + rng.usize(3);
+            let pi = std::f64::consts::PI;
+            let sigma = *rng.pick(&[1.0, 1.2]);
+            let cutoff = *rng.pick(&[3.5, 2.5]);
+            let g = *rng.pick(&["p1", "p2", "p2gg"]);
+            let nn: f64 = match g { "p1" => 1.0, "p2" => 2.0, _ => 4.0 };
+            let length = (nn * 7.0 * rng.range(1.2, 2.5)).sqrt();
+            let (x, y, th) = (crate::gen::gen_site_coord(rng), crate::gen::gen_site_coord(rng), rng.range(0.0, 2.0 * pi));
+            let mut req = format!("oracle c09_pool {}", *rng.pick(&[2usize, 4, 8]));
+            let cfg = crate::gen::gen_cfg_small(rng);
+            for _ in 0..k {
+                let eps = rng.range(0.2, 3.0);
+                let shape = format!("ljs 2 {} {} {} {} {} {} {} {} {} {}", fhex(-0.4), fhex(0.0), fhex(sigma), fhex(eps), fhex(cutoff), fhex(0.4), fhex(0.0), fhex(sigma), fhex(eps), fhex(cutoff));
+                req.push_str(&format!(" {} crystal lj {} {} {} {} {} 1 {} {} {} ;", cfg, shape, g, fhex(length), fhex(1.0), fhex(pi / 2.0), fhex(x), fhex(y), fhex(th)));
+            }
+            s.class("library-pool-shared-parameters");
+            s.run("Determinism.pool", &req, "c09_pool", "an optimisation result depends on concurrently running replicas", true);
+        } else if n % 3 == 0 {
             let req = format!("oracle c09_threads {}", cli_tail(rng));
             s.class("cli-thread-sweep");
             s.run("Determinism.threads", &req, "c09_threads", "CLI output depends on the number of worker threads / the run", true);
@@ -934,8 +954,25 @@ fn c04(s: &mut Search, rng: &mut Rng) {
 /// LJ states: `lj <shape> <group> L R A 1 x y theta`, sized so that molecules are near contact
 fn gen_lj_state(rng: &mut Rng) -> (String, bool, bool) {
     let pi = std::f64::consts::PI;
-    let (shape, like, cut) = match rng.below(6) {
+    let (shape, like, cut) = match rng.below(7) {
         0 | 1 => ("ljcircle".to_string(), true, false),
+        6 => {
+            // a general molecule (public fields / JSON): particles with their own sigma, epsilon and
+            // cutoff — truncated and untruncated particles mixed in one molecule
+            let n = 2 + rng.usize(3);
+            let mut all_cut = true;
+            let parts: Vec<String> = (0..n)
+                .map(|_| {
+                    let cut = match rng.below(3) {
+                        0 => { all_cut = false; "-".to_string() }
+                        1 => fhex(3.5),
+                        _ => fhex(rng.range(1.5, 4.0)),
+                    };
+                    format!("{} {} {} {} {}", fhex(rng.range(-0.8, 0.8)), fhex(rng.range(-0.8, 0.8)), fhex(rng.range(0.8, 1.3)), fhex(rng.range(0.5, 2.0)), cut)
+                })
+                .collect();
+            (format!("ljs {} {}", n, parts.join(" ")), false, all_cut)
+        }
         2 => (format!("ljtrimer {} {} {}", fhex(1.0), fhex(rng.range(60.0, 180.0)), fhex(rng.range(0.8, 1.5))), true, true),
         3 => (format!("ljtrimer {} {} {}", fhex(0.637556), fhex(120.0), fhex(1.0)), false, true),
         _ => (crate::gen::gen_trimer(rng, "ljtrimer"), false, true),
